@@ -363,10 +363,16 @@ Move* generate_pinned_pawn_moves(Square from, Ray ray, const Position& pos,
     }
     else
     {
+        // a pawn pinned on a diagonal may still capture en passant along that diagonal
+        const Bitboard enpassant_bb = pos.enpassant_square() != NO_SQUARE
+                                          ? square_bb(pos.enpassant_square())
+                                          : 0ULL;
+        const Bitboard capturable = pos.pieces(!side) | enpassant_bb;
+
         switch (ray & 3)
         {
         case 0:
-            if (shift<UPLEFT>(square_bb(from)) & pos.pieces(!side))
+            if (shift<UPLEFT>(square_bb(from)) & capturable)
                 *list++ = create_move(from, Square(static_cast<uint64_t>(from) + static_cast<uint64_t>(UPLEFT)));
             break;
         case 1:
@@ -378,7 +384,7 @@ Move* generate_pinned_pawn_moves(Square from, Ray ray, const Position& pos,
             }
             break;
         case 2:
-            if (shift<UPRIGHT>(square_bb(from)) & pos.pieces(!side))
+            if (shift<UPRIGHT>(square_bb(from)) & capturable)
                 *list++ = create_move(from, Square(static_cast<uint64_t>(from) + static_cast<uint64_t>(UPRIGHT)));
             break;
         }
